@@ -196,7 +196,7 @@ pub fn run_c16(run: &mut Run, replay: Option<&std::path::Path>) -> anyhow::Resul
         return replay_ops(run, &rt, p);
     }
     let mut rng = Rng::new(run.seed);
-    let nprog = if run.quick() { 700 } else { 40_000 };
+    let nprog = if run.quick() { 700 } else { 12_000 };
     for _ in 0..nprog {
         // a build program over a stack of routers
         let mut stack: Vec<Router> = vec![];
